@@ -1450,11 +1450,12 @@ class Compiler:
                 local_slot = self._get_local(name)
                 cell_slot = self._get_cell_var(name)
                 closure_slot = self._get_free_var(name)
-                if local_slot is not None:
-                    self._emit(OpCode.LOAD_LOCAL, local_slot)
-                    self._emit(OpCode.TYPEOF)
-                elif cell_slot is not None:
+                if cell_slot is not None:
+                    # A variable captured by an inner function lives in its cell
                     self._emit(OpCode.LOAD_CELL, cell_slot)
+                    self._emit(OpCode.TYPEOF)
+                elif local_slot is not None:
+                    self._emit(OpCode.LOAD_LOCAL, local_slot)
                     self._emit(OpCode.TYPEOF)
                 elif closure_slot is not None:
                     self._emit(OpCode.LOAD_CLOSURE, closure_slot)
